@@ -120,10 +120,26 @@ fn resolve_foreign_keys(
     for (locale, value_path) in foreign_keys_paths {
         let value = values
             .get_value_at(&locale, &value_path)
+            // the path was recorded before plurals were merged: a plural form (`key_one`) now lives in its base key.
+            .or_else(|| {
+                let base_path = plural_base_path(&value_path)?;
+                values.get_value_at(&locale, &base_path)
+            })
             .unwrap_at("resolve_foreign_keys_1");
         value.resolve_foreign_key(values, &locale, default_locale, &value_path)?;
     }
     Ok(())
+}
+
+fn plural_base_path(path: &KeyPath) -> Option<KeyPath> {
+    let (last, parents) = path.path.split_last()?;
+    let (base_key, suffix) = last.name.rsplit_once('_')?;
+    plurals::PluralForm::try_from_str(suffix)?;
+    let base_key = base_key.strip_suffix("_ordinal").unwrap_or(base_key);
+    let mut base_path = KeyPath::new(path.namespace.clone());
+    base_path.path = parents.to_vec();
+    base_path.push_key(Key::new(base_key)?);
+    Some(base_path)
 }
 
 fn check_locales(
